@@ -23,6 +23,7 @@ Definition zl_fifo_step : fifol Z Z -> op Z Z -> Z -> list nat -> res (fifol Z Z
 
 Definition zl_lfuda_init : nat -> Z -> nat -> nat -> lfdl Z Z := lfdl_init.
 Definition zl_lfuda_step : lfdl Z Z -> op Z Z -> Z -> list nat -> res (lfdl Z Z * ret Z Z) := dl_step true.
+Definition zl_lfu_step : lfdl Z Z -> op Z Z -> Z -> list nat -> res (lfdl Z Z * ret Z Z) := dl_step false.
 Definition zl_ttl_init : nat -> Z -> ttll Z Z := ttll_init.
 Definition zl_ttl_step : bool -> ttll Z Z -> op Z Z -> Z -> list nat -> res (ttll Z Z * ret Z Z) := tt_step.
 Definition zl_um_init : Z -> uml Z Z := uml_init.
@@ -31,4 +32,4 @@ Definition zl_um_step : uml Z Z -> op Z Z -> Z -> list nat -> res (uml Z Z * ret
 Extraction Language OCaml.
 Extraction "model.ml" zc_init zc_step zc_view zc_view_use zc_size zc_capacity
   zl_rr_init zl_rr_step zl_lru_init zl_lru_step zl_fifo_init zl_fifo_step
-  zl_lfuda_init zl_lfuda_step zl_ttl_init zl_ttl_step zl_um_init zl_um_step.
+  zl_lfuda_init zl_lfuda_step zl_lfu_step zl_ttl_init zl_ttl_step zl_um_init zl_um_step.
